@@ -207,7 +207,7 @@ class BetweenPattern(ContractPattern):
             t = doc.segs[i + 1]
             if s.kind == 'SEC' and t.kind == 'TR' and s.start >= lo and t.end <= hi:
                 between = doc.string[s.end:t.start]
-                if between.strip() in [b.strip() for b in BETWEEN] and not s.data['colon']:
+                if between.strip() in [b.strip() for b in BETWEEN]:
                     return CMatch(s, text, base, span=(s.start, t.end), groups={'between_found': (between.strip(), 0, 0)})
         return None
 
